@@ -203,10 +203,24 @@ func c17RunDisp(d c17Disp) (coq string, st c17Stats) {
 	}
 	st.okRoutes = len(live)
 	mws := make([]string, len(d.Mws))
+	// registration order must be kept whether the middlewares are passed one per Use call or several in one
+	// variadic call: alternate deterministically between the two (and a mixed) way
+	var group []mux.MiddlewareFunc
+	flush := func() {
+		if len(group) > 0 {
+			r.Use(group...)
+			group = nil
+		}
+	}
+	mode := (len(d.Mws) + len(d.Reqs) + len(d.Ops)) % 3
 	for i, m := range d.Mws {
-		r.Use(c17Middleware(m.ID, m.Pass))
+		group = append(group, c17Middleware(m.ID, m.Pass))
+		if mode == 0 || (mode == 2 && i == 0) {
+			flush()
+		}
 		mws[i] = fmt.Sprintf("(%d, %s)", m.ID, coqBool(m.Pass))
 	}
+	flush()
 	reqs := make([]string, len(d.Reqs))
 	for i, segs := range d.Reqs {
 		var tmpl string
